@@ -44,6 +44,31 @@ def mask_root(m):
     return getattr(m, "root", m)
 
 
+def derive(g, val, dt):
+    """a gather aligned with g (same selection, same parameter space)"""
+    r = Gath(g.mask, val, dt)
+    if hasattr(g, "sel"):
+        r.sel = g.sel
+    if hasattr(g, "nd"):
+        r.nd = g.nd
+    return r
+
+
+def gval(rhs, ix, st2, m):
+    """value of a gathered operand at target index ix: row vectors (nd == 1) are indexed by the position on the masked axis"""
+    if getattr(rhs, "nd", None) == 1 and len(ix) > 1 and getattr(m, "axis", None) is not None:
+        return rhs.val([ix[m.axis]], st2)
+    return rhs.val(ix, st2)
+
+
+def sel_compatible(rhs, m):
+    sr, sm = getattr(rhs, "sel", None), getattr(m, "sel", None)
+    if sr is not None and sm is not None:
+        from .select import _eq
+        return _eq(sr, sm)
+    return _same_selection(rhs.mask, m)
+
+
 def axis_mask(m1, shape, k):
     r = LArr("b", shape, lambda ix, st2, m1=m1, k=k: m1.get([ix[k]], st2), None, "axis-mask")
     r.root = mask_root(m1)
@@ -104,8 +129,8 @@ def scalar_op(op, x, y, spec):
 class GatherMixin:
     # ------------------------------------------------------------ elementwise
     def elementwise(self, op, a, b, st):
-        a2 = frozen(a, st) if isinstance(a, SArr) else a
-        b2 = frozen(b, st) if isinstance(b, SArr) else b
+        a2 = frozen(a, st)
+        b2 = frozen(b, st)
         shape = bshape(a2, b2)
         nd = len(shape)
         dt = result_dt(op, a2, b2)
@@ -237,7 +262,7 @@ class GatherMixin:
                 m = self.full_mask(base, idx, st, n)
                 if m is None:
                     raise Unsupported("fancy index form (line %d)" % n.lineno)
-                src = frozen(base, st) if isinstance(base, SArr) else base
+                src = frozen(base, st)
                 return Gath(m, lambda ix, st2, src=src: elem(src, ix, st2), arr_dt(base))
             if len(idx) == 1 and isinstance(idx[0], SList) and idx[0].items and all(isinstance(x, int) for x in idx[0].items) \
                     and len(shape_of(base)) == 1:
@@ -290,7 +315,7 @@ class GatherMixin:
         for kk, i in enumerate(idx):
             if kk != k and not (isinstance(i, tuple) and i and isinstance(i[0], str) and i[0] == "slice" and i[1] is None and i[2] is None):
                 raise Unsupported("index-array form: other axes must be full slices (line %d)" % n.lineno)
-        src = frozen(base, st) if isinstance(base, SArr) else base
+        src = frozen(base, st)
         if not self.spec:
             x = z3.Int(fresh_name("jx"))
             g = zi(to_int(J.val([x], st)))
@@ -327,12 +352,14 @@ class GatherMixin:
                             z3.is_int_value(c) and 0 <= c.as_long() < 2 ** w for c in v.children()[1:]):
                         return v   # already in range
                     return v % (2 ** w)
-                return Gath(recv.mask, val, "i")
+                return derive(recv, val, "i")
 
             def val(ix, st2, recv=recv, code=code):
                 v = recv.val(ix, st2)
+                if code == "i" and is_float(v):
+                    return fl.trunc_int(fl.F(v))
                 return coerce_scalar(to_int(v) if is_boolv(v) else v, code) if code != "f" else fl.F(_num(v))
-            return Gath(recv.mask, val, code)
+            return derive(recv, val, code)
         if isinstance(recv, SList) and recv.items and not any(is_arr(x) for x in recv.items):
             dt = args[0] if args else kw.get("dtype")
             from .npmodel import dtype_code
@@ -409,9 +436,9 @@ class GatherMixin:
                                                              for i in idx) else None
                 if m is not None:
                     if isinstance(v, Gath):
-                        if v.mask is not m and not _same_selection(v.mask, m):
+                        if v.mask is not m and not sel_compatible(v, m):
                             raise Unsupported("scatter of a gather over another selection (line %d)" % t.lineno)
-                        self.scatter(base, m, lambda ix, st2, old, v=v: v.val(ix, st2), st, t)
+                        self.scatter(base, m, lambda ix, st2, old, v=v, m=m: gval(v, ix, st2, m), st, t)
                     elif is_arr(v):
                         raise Unsupported("scatter of an array value (line %d)" % t.lineno)
                     else:
@@ -464,7 +491,7 @@ class GatherMixin:
                         if not self.spec:
                             self.emit(st, "shape", "L%d" % s.lineno, band(*[simp_bool(zi(a) == zi(b)) for a, b in zip(shape_of(arr), shape_of(rhs))]),
                                       s, "operands of the in-place update have the same shape")
-                        rhs = frozen(rhs, st) if isinstance(rhs, SArr) else rhs
+                        rhs = frozen(rhs, st)
                     op = BINOPS[type(s.op)]
                     full = LArr("b", shape_of(arr), lambda ix, st2: True, None, "all")
 
@@ -490,13 +517,13 @@ class GatherMixin:
                         op = BINOPS[type(s.op)]
                         if is_arr(rhs):
                             raise Unsupported("masked op= with an array operand (line %d)" % s.lineno)
-                        if isinstance(rhs, Gath) and not _same_selection(rhs.mask, m):
+                        if isinstance(rhs, Gath) and not sel_compatible(rhs, m):
                             raise Unsupported("masked op= with a gather over another selection (line %d)" % s.lineno)
                         spec = self.spec
 
-                        def val(ix, st2, old, rhs=rhs, op=op):
+                        def val(ix, st2, old, rhs=rhs, op=op, m=m):
                             cur = array_read(st2, old, ix)
-                            r = rhs.val(ix, st2) if isinstance(rhs, Gath) else rhs
+                            r = gval(rhs, ix, st2, m) if isinstance(rhs, Gath) else rhs
                             if old.dt.startswith("u"):
                                 r = coerce_scalar(r, old.dt)
                             return arith(op, cur, r, None, None)
@@ -529,7 +556,7 @@ class GatherMixin:
             dt = x.dt if isinstance(x, Gath) else (y.dt if isinstance(y, Gath) else "i")
             return Gath(c.mask, val, dt)
         if is_arr(c):
-            cs, xs, ys = (frozen(v, st) if isinstance(v, SArr) else v for v in (c, x, y))
+            cs, xs, ys = (frozen(v, st) for v in (c, x, y))
             nd = len(shape_of(c))
             dt = arr_dt(x) if is_arr(x) else (arr_dt(y) if is_arr(y) else ("f" if is_float(x) or is_float(y) else "i"))
             return LArr(dt, shape_of(c), lambda ix, st2: merge(as_bool(elem(cs, ix, st2)), belem(xs, ix, st2, nd), belem(ys, ix, st2, nd)),
@@ -543,7 +570,7 @@ class GatherMixin:
             return LArr("b", shape_of(v), lambda ix, st2, src=src: (fl.isnan(elem(src, ix, st2)) if is_float(elem(src, ix, st2)) else False),
                         None, "isnan")
         if isinstance(v, Gath):
-            return Gath(v.mask, lambda ix, st2, v=v: (fl.isnan(v.val(ix, st2)) if is_float(v.val(ix, st2)) else False), "b")
+            return derive(v, lambda ix, st2, v=v: (fl.isnan(v.val(ix, st2)) if is_float(v.val(ix, st2)) else False), "b")
         return super().b_numpy_isnan(args, kw, st, n)
 
     def b_numpy_isfinite(self, args, kw, st, n):
@@ -553,7 +580,7 @@ class GatherMixin:
             return LArr("b", shape_of(v), lambda ix, st2, src=src: (fl.isfin(elem(src, ix, st2)) if is_float(elem(src, ix, st2)) else True),
                         None, "isfinite")
         if isinstance(v, Gath):
-            return Gath(v.mask, lambda ix, st2, v=v: (fl.isfin(v.val(ix, st2)) if is_float(v.val(ix, st2)) else True), "b")
+            return derive(v, lambda ix, st2, v=v: (fl.isfin(v.val(ix, st2)) if is_float(v.val(ix, st2)) else True), "b")
         if is_float(v):
             return fl.isfin(fl.F(v))
         return True
@@ -569,7 +596,7 @@ class GatherMixin:
         a = args[0]
         axis = kw.get("axis", args[1] if len(args) > 1 else None)
         if is_arr(a) and arr_dt(a) == "b" and isinstance(axis, int):
-            src = frozen(a, st) if isinstance(a, SArr) else a
+            src = frozen(a, st)
             shape = list(shape_of(a))
             if axis < 0:
                 axis += len(shape)
@@ -588,7 +615,7 @@ class GatherMixin:
         a = args[0]
         axis = kw.get("axis", args[1] if len(args) > 1 else None)
         if is_arr(a) and arr_dt(a) == "b" and isinstance(axis, int):
-            src = frozen(a, st) if isinstance(a, SArr) else a
+            src = frozen(a, st)
             shape = list(shape_of(a))
             if axis < 0:
                 axis += len(shape)
